@@ -139,38 +139,62 @@ theorem msp430_sound (m : Memory) : msp430.SoundOn m := by
   show (msp430Words m a _).flatMap _ = _
   rw [msp430Words_cells]; rfl
 
-theorem cellsOfValueLE_four (a : BitVec 32) (b0 b1 b2 b3 : Byte) :
-    cellsOfValueLE a (b0.zeroExtend 32 ||| (b1.zeroExtend 32 <<< 8) ||| (b2.zeroExtend 32 <<< 16) |||
-      (b3.zeroExtend 32 <<< 24)) 4 = [⟨a, b0⟩, ⟨a + 1, b1⟩, ⟨a + 1 + 1, b2⟩, ⟨a + 1 + 1 + 1, b3⟩] := by
-  simp only [cellsOfValueLE]
-  generalize hw : (b0.zeroExtend 32 ||| (b1.zeroExtend 32 <<< 8) ||| (b2.zeroExtend 32 <<< 16) |||
-      (b3.zeroExtend 32 <<< 24)) = w
-  have h0 : w.setWidth 8 = b0 := by subst hw; bv_decide
-  have h1 : (w >>> 8).setWidth 8 = b1 := by subst hw; bv_decide
-  have h2 : (w >>> 8 >>> 8).setWidth 8 = b2 := by subst hw; bv_decide
-  have h3 : (w >>> 8 >>> 8 >>> 8).setWidth 8 = b3 := by subst hw; bv_decide
-  rw [h0, h1, h2, h3]
+theorem cellsOfValue_four (big : Bool) (a : BitVec 32) (b0 b1 b2 b3 : Byte) :
+    cellsOfValue big a
+      (if !big then b0.zeroExtend 32 ||| (b1.zeroExtend 32 <<< 8) ||| (b2.zeroExtend 32 <<< 16) ||| (b3.zeroExtend 32 <<< 24)
+       else (b0.zeroExtend 32 <<< 24) ||| (b1.zeroExtend 32 <<< 16) ||| (b2.zeroExtend 32 <<< 8) ||| b3.zeroExtend 32) 4 =
+    [⟨a, b0⟩, ⟨a + 1, b1⟩, ⟨a + 1 + 1, b2⟩, ⟨a + 1 + 1 + 1, b3⟩] := by
+  cases big
+  · simp only [cellsOfValue, Bool.false_eq_true, if_false, Bool.not_false, if_true, cellsOfValueLE]
+    generalize hw : (b0.zeroExtend 32 ||| (b1.zeroExtend 32 <<< 8) ||| (b2.zeroExtend 32 <<< 16) |||
+        (b3.zeroExtend 32 <<< 24)) = w
+    have h0 : w.setWidth 8 = b0 := by subst hw; bv_decide
+    have h1 : (w >>> 8).setWidth 8 = b1 := by subst hw; bv_decide
+    have h2 : (w >>> 8 >>> 8).setWidth 8 = b2 := by subst hw; bv_decide
+    have h3 : (w >>> 8 >>> 8 >>> 8).setWidth 8 = b3 := by subst hw; bv_decide
+    rw [h0, h1, h2, h3]
+  · simp only [cellsOfValue, if_true, Bool.not_true, Bool.false_eq_true, if_false, cellsOfValueLE, addrRange, List.map_cons,
+      List.map_nil, List.reverse_cons, List.reverse_nil, List.nil_append, List.cons_append, List.zip_cons_cons,
+      List.zip_nil_right]
+    generalize hw : ((b0.zeroExtend 32 <<< 24) ||| (b1.zeroExtend 32 <<< 16) ||| (b2.zeroExtend 32 <<< 8) |||
+        b3.zeroExtend 32) = w
+    have h0 : w.setWidth 8 = b3 := by subst hw; bv_decide
+    have h1 : (w >>> 8).setWidth 8 = b2 := by subst hw; bv_decide
+    have h2 : (w >>> 8 >>> 8).setWidth 8 = b1 := by subst hw; bv_decide
+    have h3 : (w >>> 8 >>> 8 >>> 8).setWidth 8 = b0 := by subst hw; bv_decide
+    rw [h0, h1, h2, h3]
 
-theorem cellsOfValueLE_two (a : BitVec 32) (b0 b1 : Byte) :
-    cellsOfValueLE a ((b0.zeroExtend 16 ||| (b1.zeroExtend 16 <<< 8)).zeroExtend 32) 2 = [⟨a, b0⟩, ⟨a + 1, b1⟩] := by
-  simp only [cellsOfValueLE]
-  generalize hw : ((b0.zeroExtend 16 ||| (b1.zeroExtend 16 <<< 8)).zeroExtend 32 : BitVec 32) = w
-  have h0 : w.setWidth 8 = b0 := by subst hw; bv_decide
-  have h1 : (w >>> 8).setWidth 8 = b1 := by subst hw; bv_decide
-  rw [h0, h1]
+theorem cellsOfValue_two (big : Bool) (a : BitVec 32) (b0 b1 : Byte) :
+    cellsOfValue big a
+      ((if !big then b0.zeroExtend 16 ||| (b1.zeroExtend 16 <<< 8) else (b0.zeroExtend 16 <<< 8) ||| b1.zeroExtend 16).zeroExtend 32) 2 =
+    [⟨a, b0⟩, ⟨a + 1, b1⟩] := by
+  cases big
+  · simp only [cellsOfValue, Bool.false_eq_true, if_false, Bool.not_false, if_true, cellsOfValueLE]
+    generalize hw : ((b0.zeroExtend 16 ||| (b1.zeroExtend 16 <<< 8)).zeroExtend 32 : BitVec 32) = w
+    have h0 : w.setWidth 8 = b0 := by subst hw; bv_decide
+    have h1 : (w >>> 8).setWidth 8 = b1 := by subst hw; bv_decide
+    rw [h0, h1]
+  · simp only [cellsOfValue, if_true, Bool.not_true, Bool.false_eq_true, if_false, cellsOfValueLE, addrRange, List.map_cons,
+      List.map_nil, List.reverse_cons, List.reverse_nil, List.nil_append, List.cons_append, List.zip_cons_cons,
+      List.zip_nil_right]
+    generalize hw : (((b0.zeroExtend 16 <<< 8) ||| b1.zeroExtend 16).zeroExtend 32 : BitVec 32) = w
+    have h0 : w.setWidth 8 = b1 := by subst hw; bv_decide
+    have h1 : (w >>> 8).setWidth 8 = b0 := by subst hw; bv_decide
+    rw [h0, h1]
 
-/-- **RISC-V lines show what they consumed** when the memory is little endian (the CPU's byte order; after a
-`.big_endian` directive the printed word is the big-endian reading of the same bytes). -/
-theorem riscv_sound (m : Memory) (hle : m.bigEndian = false) : riscv.SoundOn m := by
+/-- **RISC-V lines show what they consumed**: the printed value is `read16` / `read32` of the memory, read back in
+the byte order in force. -/
+theorem riscv_sound (m : Memory) : riscv.SoundOn m := by
   intro a
+  have e2 : a + 1 + 1 = a + 2 := by rw [BitVec.add_assoc]; rfl
+  have e3 : a + 2 + 1 = a + 3 := by rw [BitVec.add_assoc]; rfl
   by_cases h2 : riscvLen m a = 2
   · refine ⟨?_, ?_, ?_⟩
     · simp only [riscv, h2, if_true]
     · simp only [riscv, h2, if_true]
     · simp only [riscv, h2, if_true]
       unfold read16
-      simp only [hle, Bool.not_false, if_true]
-      rw [cellsOfValueLE_two]
+      rw [cellsOfValue_two]
       rfl
   · have h4 : riscvLen m a = 4 := by
       unfold riscvLen Riscv.Disasm.len at h2 ⊢
@@ -181,10 +205,7 @@ theorem riscv_sound (m : Memory) (hle : m.bigEndian = false) : riscv.SoundOn m :
     · simp only [riscv, h2, if_false]
       rw [h4]
       unfold read32
-      simp only [hle, Bool.not_false, if_true]
-      rw [cellsOfValueLE_four]
-      have e2 : a + 1 + 1 = a + 2 := by rw [BitVec.add_assoc]; rfl
-      have e3 : a + 2 + 1 = a + 3 := by rw [BitVec.add_assoc]; rfl
+      rw [cellsOfValue_four]
       simp only [bytesOf, addrRange, List.map_cons, List.map_nil, e2, e3]
 
 /-! ### the loop -/
